@@ -40,7 +40,7 @@ class Contract:
                  returns=None, loops=None, params=None, max_paths=4000, pure_spec=None,
                  no_return=False, props=(), ghost_asserts=None, notes="", assumed=False,
                  locals=None, ghost_modifies=(), decreases=None, loop_all=None, closure=None,
-                 waive=()):
+                 waive=(), havoc_stmts=(), dyn_call_ghost=None):
         self.target = target
         self.requires = list(requires)
         self.ensures = list(ensures)
@@ -63,6 +63,8 @@ class Contract:
         self.loop_all = list(loop_all or [])   # invariants of every loop without its own entry
         self.closure = closure or {}     # free variables of a nested function: name -> type spec
         self.waive = list(waive)         # obligation texts explicitly left unverified (reported)
+        self.havoc_stmts = list(havoc_stmts)   # statements (normalised source) replaced by havoc
+        self.dyn_call_ghost = dyn_call_ghost   # (ghost name, predicate name) counted per user call
 
 
 class Seq:
@@ -89,6 +91,7 @@ class World:
         self.trusted_used = set()
         self.havoc_callables = {}
         self.model_prefs_fns = []
+        self.const_overrides = {}    # "module.NAME" -> type spec (module constant treated as havoc)
         from . import builtins_lib, maps, refs
         builtins_lib.install(self)
         maps.install(self)
